@@ -11,6 +11,7 @@ import (
 	"bytes"
 	"crypto/hmac"
 	"crypto/sha256"
+	"encoding/base64"
 	"errors"
 	"fmt"
 	"net/http"
@@ -93,23 +94,23 @@ func (h *hx) abstractServerOut(hdr string, key, host uint64, items []sym.Item) (
 	var out []sym.OutTerm
 	for _, p := range ps {
 		var t sym.Term
-		pv := h.w.PVRaw(p.Raw)
 		switch sym.ParamNames[p.Name] {
 		case "challenge-client", "challenge-server":
 			t = h.w.RawTerm(p.Raw)
 		case "public-key":
+			pv := h.w.PVRaw(p.Raw)
 			if pv.Dec == nil {
 				return nil, false
 			}
 			t = *pv.Dec
 		case "sig":
-			b, err := h.w.Concrete(*pv.Dec)
+			b, err := base64.URLEncoding.DecodeString(p.Raw)
 			if err != nil {
 				return nil, false
 			}
 			t = h.w.AbstractSig(b, h.serverSigCands(key, host, items))
 		default: // opaque, bearer
-			b, err := h.w.Concrete(*pv.Dec)
+			b, err := base64.URLEncoding.DecodeString(p.Raw)
 			if err != nil {
 				return nil, false
 			}
@@ -239,8 +240,7 @@ func (s *cliSess) abstractOut(hdr string, seen []sym.Item) ([]sym.OutTerm, bool)
 			}
 			t = *pv.Dec
 		case "sig":
-			pv := h.w.PVRaw(p.Raw)
-			b, err := h.w.Concrete(*pv.Dec)
+			b, err := base64.URLEncoding.DecodeString(p.Raw)
 			if err != nil {
 				return nil, false
 			}
